@@ -56,7 +56,7 @@ func init() {
 	execs["c08.vmtlgo"] = execC08VmTlGo
 	gens["C08"] = genC08
 	for _, t := range c08TlbTypes {
-		if d := c08Derive(t, ""); d != nil {
+		if d := c08DeriveTop(t); d != nil {
 			c08TlbByDesc[d.sx().String()] = t
 		}
 	}
@@ -381,10 +381,60 @@ func (d *c08Desc) hasAny() bool {
 	return false
 }
 
+func (d *c08Desc) hasHashed() bool {
+	if d.K == "hashed" {
+		return true
+	}
+	for _, s := range d.Sub {
+		if s.hasHashed() {
+			return true
+		}
+	}
+	for _, a := range d.Alts {
+		if a.T.hasHashed() {
+			return true
+		}
+	}
+	return false
+}
+
+// the oracle column of the hash-first decoders: paths (reference indices) of the
+// cells on which boc.Cell.Hash() fails
+func c08HashFailPaths(t *c08Tree) sx.V {
+	var out []sx.V
+	var walk func(n *c08Tree, path []sx.V)
+	walk = func(n *c08Tree, path []sx.V) {
+		failed := func() (bad bool) {
+			defer func() {
+				if r := recover(); r != nil {
+					bad = true
+				}
+			}()
+			_, err := n.cell().Hash()
+			return err != nil
+		}()
+		if failed {
+			out = append(out, sx.L(append([]sx.V{}, path...)...))
+		}
+		for i, r := range n.Refs {
+			walk(r, append(append([]sx.V{}, path...), sx.Nat(i)))
+		}
+	}
+	walk(t, nil)
+	return sx.L(out...)
+}
+
+func c08TlbInput(d *c08Desc, tree *c08Tree) sx.V {
+	if d.hasHashed() {
+		return sx.L(sx.B(!d.hasAny()), d.sx(), tree.sx(), c08HashFailPaths(tree))
+	}
+	return sx.L(sx.B(!d.hasAny()), d.sx(), tree.sx())
+}
+
 // hasLoop: the decoder follows the data (dictionary, stack list, tuple, snake)
 func (d *c08Desc) hasLoop() bool {
 	switch d.K {
-	case "hm", "hmaug", "vmstack", "vmvalue", "vmtuple", "snake", "bytes", "cslice", "text", "bintree":
+	case "hm", "hmaug", "vmstack", "vmvalue", "vmtuple", "snake", "bytes", "cslice", "text", "bintree", "hashed":
 		return true
 	}
 	for _, s := range d.Sub {
@@ -459,16 +509,50 @@ var c08CellType = reflect.TypeOf(boc.Cell{})
 
 // c08Derive maps a Go type to its descriptor; nil when some part is decoded by
 // a hand-written UnmarshalTLB outside the descriptor language.
-func c08Derive(t reflect.Type, tag string) *c08Desc {
+// c08AtStart: the type being derived is decoded at the start of a cell (top
+// level or directly behind a reference), where ResetCounters is the identity
+var c08AtStart bool
+
+func c08DeriveStart(t reflect.Type, tag string, start bool) *c08Desc {
+	old := c08AtStart
+	c08AtStart = start
+	defer func() { c08AtStart = old }()
+	return c08DeriveInner(t, tag)
+}
+
+// a "^" / "maybe^" tag rejects a library cell whatever the target is (only
+// Ref[T] lets an Any target keep it): a one-field struct has no exemption
+func c08NoLib(in *c08Desc) *c08Desc {
+	if in.K == "any" || in.K == "rawcell" {
+		return &c08Desc{K: "struct", Sub: []*c08Desc{in}}
+	}
+	return in
+}
+
+// c08Derive: a position inside a cell
+func c08Derive(t reflect.Type, tag string) *c08Desc { return c08DeriveStart(t, tag, false) }
+
+// c08DeriveTop: tlb.Unmarshal(cell, &x)
+func c08DeriveTop(t reflect.Type) *c08Desc { return c08DeriveStart(t, "", true) }
+
+// the fields Message.UnmarshalTLB decodes after hashing the cell
+type c08MsgBody struct {
+	Info tlb.CommonMsgInfo
+	Init tlb.Maybe[tlb.EitherRef[tlb.StateInit]]
+	Body tlb.EitherRef[tlb.Any]
+}
+
+func c08DeriveInner(t reflect.Type, tag string) *c08Desc {
+	start := c08AtStart
 	if strings.HasPrefix(tag, "maybe^") {
 		if t.Kind() != reflect.Pointer {
 			return nil
 		}
-		in := c08Derive(t.Elem(), "")
+		in := c08DeriveStart(t.Elem(), "", true)
 		if in == nil {
 			return nil
 		}
-		return &c08Desc{K: "mref", Sub: []*c08Desc{in}}
+		return &c08Desc{K: "mref", Sub: []*c08Desc{c08NoLib(in)}}
 	}
 	if strings.HasPrefix(tag, "maybe") {
 		in := c08Derive(t, tag[len("maybe"):])
@@ -481,11 +565,11 @@ func c08Derive(t reflect.Type, tag string) *c08Desc {
 		if t == c08CellType {
 			return &c08Desc{K: "cell"}
 		}
-		in := c08Derive(t, "")
+		in := c08DeriveStart(t, "", true)
 		if in == nil {
 			return nil
 		}
-		return &c08Desc{K: "ref", Sub: []*c08Desc{in}}
+		return &c08Desc{K: "ref", Sub: []*c08Desc{c08NoLib(in)}}
 	}
 	if t.PkgPath() == "github.com/tonkeeper/tongo/tlb" {
 		n := t.Name()
@@ -528,6 +612,42 @@ func c08Derive(t reflect.Type, tag string) *c08Desc {
 			return &c08Desc{K: "any"}
 		case n == "MsgAddress":
 			return &c08Desc{K: "addr"}
+		case n == "Message" || n == "Transaction":
+			// hash-first decoders: modelled only where the rewind is the identity
+			if !start {
+				return nil
+			}
+			var body *c08Desc
+			if n == "Message" {
+				body = c08Derive(reflect.TypeOf(c08MsgBody{}), "")
+			} else {
+				// transaction$0111 and the fields in order; "^" fields are read with
+				// c.NextRef() + decoder.Unmarshal: no pruned-branch shortcut
+				st := &c08Desc{K: "struct"}
+				for i := 1; i < t.NumField(); i++ {
+					f := t.Field(i)
+					if !f.IsExported() {
+						continue
+					}
+					var fd *c08Desc
+					if f.Tag.Get("tlb") == "^" {
+						if in := c08DeriveStart(f.Type, "", true); in != nil {
+							fd = &c08Desc{K: "refraw", Sub: []*c08Desc{in}}
+						}
+					} else {
+						fd = c08Derive(f.Type, f.Tag.Get("tlb"))
+					}
+					if fd == nil {
+						return nil
+					}
+					st.Sub = append(st.Sub, fd)
+				}
+				body = &c08Desc{K: "sum", Alts: []c08Alt{{4, 7, st}}}
+			}
+			if body == nil {
+				return nil
+			}
+			return &c08Desc{K: "hashed", Sub: []*c08Desc{body}}
 		case n == "AccountStatus":
 			return &c08Desc{K: "u", W: 2}
 		case n == "AccStatusChange": // acst_unchanged$0 acst_frozen$10 acst_deleted$11
@@ -593,7 +713,7 @@ func c08Derive(t reflect.Type, tag string) *c08Desc {
 			return c08DeriveMap(t, false)
 		case strings.HasPrefix(n, "Maybe["), strings.HasPrefix(n, "EitherRef["), strings.HasPrefix(n, "Ref["):
 			f, _ := t.FieldByName("Value")
-			in := c08Derive(f.Type, "")
+			in := c08DeriveStart(f.Type, "", strings.HasPrefix(n, "Ref["))
 			if in == nil {
 				return nil
 			}
@@ -870,8 +990,10 @@ func c08GenValid(r *prng.R, d *c08Desc, t *c08Tree, depth int) {
 			t.Bits = append(t.Bits, false)
 			c08GenValid(r, d.Sub[0], t, depth)
 		}
-	case "ref":
+	case "ref", "refraw":
 		sub(d.Sub[0])
+	case "hashed":
+		c08GenValid(r, d.Sub[0], t, depth)
 	case "mref":
 		if r.Bool() {
 			t.Bits = append(t.Bits, true)
@@ -1645,8 +1767,8 @@ func c08DirectedCase(c *Ctx, ti int, tree *c08Tree) {
 	if ti < 0 || !tree.fits() {
 		return
 	}
-	if d := c08Derive(c08TlbTypes[ti], ""); d != nil {
-		in := sx.L(sx.B(!d.hasAny()), d.sx(), tree.sx())
+	if d := c08DeriveTop(c08TlbTypes[ti]); d != nil {
+		in := c08TlbInput(d, tree)
 		out := c.EmitGuarded("c08.tlb", in, c08ShortName(c08TlbTypes[ti])+"|malformed")
 		if o := out.String(); strings.Contains(o, "'panic") || strings.Contains(o, "'crash") || strings.Contains(o, "'timeout") {
 			c.Fail("c08.tlb", in, "tlb-panic", "tlb.Unmarshal panicked / crashed: "+o)
@@ -1713,6 +1835,31 @@ func genC08Directed(c *Ctx) {
 					}
 				}
 			}
+		}
+	}
+	// hash-first decoders: cell trees around the depth at which boc.Cell.Hash() gives up
+	for _, name := range []string{"Message", "Transaction"} {
+		ti := c08TypeIndex(name)
+		d := c08DeriveTop(c08TlbTypes[ti])
+		if ti < 0 || d == nil {
+			continue
+		}
+		for _, n := range []int{5, 1021, 1022, 1023, 1024, 1025, 1026} {
+			base := &c08Tree{}
+			c08GenValid(r, d, base, 0)
+			if len(base.Refs) >= 4 {
+				continue
+			}
+			var chain *c08Tree
+			for i := 0; i < n; i++ {
+				cl := &c08Tree{Bits: []bool{i%2 == 0}}
+				if chain != nil {
+					cl.Refs = []*c08Tree{chain}
+				}
+				chain = cl
+			}
+			base.Refs = append(base.Refs, chain)
+			c08DirectedCase(c, ti, base)
 		}
 	}
 	// hashmaps: labels announcing more bits than the cell holds
@@ -1785,7 +1932,7 @@ func genC08Directed(c *Ctx) {
 func genC08TLB(c *Ctx) {
 	for ti, t := range c08TlbTypes {
 		r := c.R.Fork(uint64(5000 + ti))
-		d := c08Derive(t, "")
+		d := c08DeriveTop(t)
 		loop := d != nil && d.hasLoop()
 		run := func(tree *c08Tree, class string) {
 			if !tree.fits() {
@@ -1809,7 +1956,7 @@ func genC08TLB(c *Ctx) {
 				}
 				return
 			}
-			in := sx.L(sx.B(!d.hasAny()), d.sx(), tree.sx())
+			in := c08TlbInput(d, tree)
 			var out sx.V
 			if loop {
 				// the decoder follows the data: run it in the guarded child and
